@@ -3,6 +3,7 @@ package main
 import (
 	"encoding/json"
 	"fmt"
+	"reflect"
 	"strings"
 
 	ap "github.com/go-ap/activitypub"
@@ -134,8 +135,50 @@ func c18Supported(toB, fromB interface{}) (supported bool, determined bool) {
 	return false, true
 }
 
-func runCopy(toB, fromB interface{}) (res interface{}, viol string) {
+// c18Share makes lists share storage the way ordinary code does: {"to": [A, B]} lets property B of `to`
+// hold the very slice of property A (ob.To = rcpts; ob.Audience = rcpts); {"from": [X, k]} lets property X
+// of `from` be the tail to.X[k:] (an update derived from the stored object by a struct copy).  The value
+// trees already describe these contents; only the backing storage differs from separately built lists.
+func c18Share(to, from ap.Item, alias interface{}) {
+	a, _ := alias.(T)
+	if a == nil {
+		if m, ok := alias.(map[string]interface{}); ok {
+			a = T(m)
+		} else {
+			return
+		}
+	}
+	field := func(it ap.Item, name string) reflect.Value {
+		v := reflect.ValueOf(it)
+		if !v.IsValid() || v.Kind() != reflect.Ptr || v.IsNil() {
+			return reflect.Value{}
+		}
+		f := v.Elem().FieldByName(name)
+		if !f.IsValid() || f.Type() != reflect.TypeOf(ap.ItemCollection(nil)) || !f.CanSet() {
+			return reflect.Value{}
+		}
+		return f
+	}
+	if l := asList(a["to"]); len(l) == 2 {
+		fa, fb := field(to, l[0].(string)), field(to, l[1].(string))
+		if fa.IsValid() && fb.IsValid() {
+			fb.Set(fa)
+		}
+	}
+	if l := asList(a["from"]); len(l) == 2 {
+		ft, ff := field(to, l[0].(string)), field(from, l[0].(string))
+		k := int(num(l[1]))
+		if ft.IsValid() && ff.IsValid() && k <= ft.Len() {
+			ff.Set(ft.Slice(k, ft.Len()))
+		}
+	}
+}
+
+func runCopy(toB, fromB interface{}, alias ...interface{}) (res interface{}, viol string) {
 	to, from := buildItem(toB), buildItem(fromB)
+	if len(alias) > 0 && alias[0] != nil {
+		c18Share(to, from, alias[0])
+	}
 	var err error
 	if p, msg := guard(func() { _, err = ap.CopyItemProperties(to, from) }); p {
 		return "panic", "panic: " + msg
@@ -156,9 +199,16 @@ func runCopy(toB, fromB interface{}) (res interface{}, viol string) {
 	return T{"to": toA}, viol
 }
 
-func c18Case(c *Ctx, toB, fromB interface{}, tag string) {
-	res, viol := runCopy(toB, fromB)
+func c18Case(c *Ctx, toB, fromB interface{}, tag string, alias ...interface{}) {
+	var al interface{}
+	if len(alias) > 0 {
+		al = alias[0]
+	}
+	res, viol := runCopy(toB, fromB, al)
 	in := map[string]interface{}{"op": "copy", "to": toB, "from": fromB}
+	if al != nil {
+		in["alias"] = al
+	}
 	c.Emit(in, res, true)
 	c.Tag(tag)
 	if viol != "" {
@@ -211,6 +261,53 @@ func init() {
 					ff[name] = lv
 				}
 			}
+			// lists that share storage (the trees say what each holds; the sharing is applied to the built values)
+			var alias interface{}
+			if c.R.Chance(20) {
+				lists := []string{"To", "CC", "Bto", "BCC", "Audience"}
+				a, b := lists[c.R.Intn(len(lists))], lists[c.R.Intn(len(lists))]
+				mk := func(n int) T {
+					l := []interface{}{}
+					for k := 0; k < n; k++ {
+						l = append(l, T{"iri": g1.nextID("rcpt")})
+					}
+					return T{"list": l}
+				}
+				if c.R.Bool() && a != b {
+					// two properties of `to` hold one list; the update sets at most one of them
+					if lv, _ := tf[a].(T); lv == nil || len(asList(lv["list"])) == 0 {
+						tf[a] = mk(2 + c.R.Intn(3))
+					}
+					tf[b] = cloneTree(tf[a])
+					if c.R.Bool() {
+						delete(ff, a)
+					} else {
+						delete(ff, b)
+					}
+					if c.R.Chance(30) {
+						delete(ff, a)
+						delete(ff, b)
+					}
+					alias = T{"to": []interface{}{a, b}}
+					tag = "shared-list-in-to/" + goType
+				} else if from["ptr"] == true {
+					// `from` derived from `to`: its list is a tail of to's
+					lv, _ := tf[a].(T)
+					if lv == nil || len(asList(lv["list"])) < 2 {
+						lv = mk(2 + c.R.Intn(3))
+						tf[a] = lv
+					}
+					l := asList(lv["list"])
+					k := 1 + c.R.Intn(len(l)-1)
+					ff[a] = T{"list": asList(cloneTree(T{"list": l[k:]}).(T)["list"])}
+					alias = T{"from": []interface{}{a, k}}
+					tag = "from-list-is-tail-of-to/" + goType
+				}
+			}
+			if alias != nil {
+				c18Case(c, to, from, tag, alias)
+				continue
+			}
 			switch p := c.R.Intn(100); {
 			case p < 6:
 				ff["ID"] = T{"s": id + "/other"}
@@ -246,7 +343,7 @@ func init() {
 		if err := json.Unmarshal(input, &in); err != nil {
 			return "bad replay input"
 		}
-		_, viol := runCopy(parseTree(in["to"]), parseTree(in["from"]))
+		_, viol := runCopy(parseTree(in["to"]), parseTree(in["from"]), in["alias"])
 		return viol
 	}
 }
